@@ -146,9 +146,43 @@ def judge(ck, fails, origin):
             ck.violation(s, "", {})
 
 
+def selftest(ck, tp):
+    """Binding of the trace spec: a trace with one corrupted kind and a trace with its last report dropped must both be rejected."""
+    traces, cur = [], None
+    for line in open(tp):
+        e = json.loads(line)
+        if e["i"] == 0:
+            if len(traces) == 2:
+                break
+            cur = None
+            if not e.get("free") and len(e.get("ek") or []) >= 2:
+                cur = [e]
+                traces.append(cur)
+        elif cur is not None:
+            cur.append(e)
+    if len(traces) < 2:
+        ck.fatal("selftest: no traces to corrupt")
+    a, b = traces
+    a[1]["kname"] = "Identifier" if a[1]["kname"] != "Identifier" else "String"
+    a[1]["cls"] = ""
+    del b[-2]                      # the end-of-input report; the End event then comes one report early
+    for k, t in enumerate((a, b)):
+        for e in t:
+            e["t"] = k + 1
+    sp = ck.path("selftest.ndjson")
+    with open(sp, "w") as f:
+        for t in (a, b):
+            for e in t:
+                f.write(json.dumps(e) + "\n")
+    rej = {x["t"] for x in ck.validate("js", "JsTokensTrace", "JsTokensTrace.cfg", sp, shards=1)}
+    ck.cov["traces_validated_against_impl"] -= 2
+    if rej != {1, 2}:
+        ck.fatal("selftest: JsTokensTrace accepted a corrupted token kind or a dropped report (rejected: %s)" % sorted(rej))
+
+
 def step(ck, plan, cfg, variants, used_all, **tlckw):
     cases = ck.path("cases-%s.ndjson" % plan)
-    r = ck.tlc("js", "JsTokensGen", cfg, label="generator: " + plan, env={"VERIF_CASES": cases}, timeout=280, **tlckw)
+    r = ck.tlc("js", "JsTokensGen", cfg, label="generator: " + plan, env={"VERIF_CASES": cases}, timeout=280, **{"workers": 4, **tlckw})
     if not os.path.exists(cases):
         ck.fatal("generator %s wrote no cases" % plan)
     tp = ck.path("trace-%s.ndjson" % plan)
@@ -167,6 +201,8 @@ def step(ck, plan, cfg, variants, used_all, **tlckw):
     ck.cov["samples"] += (s.get("samples") or [])[:1]
     ck.cov.setdefault("cases_by_plan", {})[plan] = s["cases"]
     judge(ck, ck.validate("js", "JsTokensTrace", "JsTokensTrace.cfg", tp, timeout=900), plan)
+    if plan == "edges":
+        selftest(ck, tp)
     os.remove(tp)
     os.remove(cases)
     return vocab
@@ -185,8 +221,8 @@ def run(ck):
     ck.cov["least_used_atoms"] = sorted(used.items(), key=lambda x: x[1])[:5]
     ck.cov["exhaustive"] = True
     if thorough:
-        step(ck, "seq", "Gen_seq.cfg", 2, used, simulate=3000, depth=40, seed=ck.seed, workers=8)
-        ck.cov["exhaustive"] = "all plans but seq (simulation: 8 x 3000 behaviours of 12 units, cases at 4, 8, 12)"
+        step(ck, "seq", "Gen_seq.cfg", 2, used, simulate=20000, depth=40, seed=ck.seed, workers=1)   # workers share the seed: one worker
+        ck.cov["exhaustive"] = "all plans but seq (simulation: 20000 behaviours of 12 units, cases at 4, 8, 12)"
     ck.cov["constants"] = {"MaxNest": 3, "MaxBody": 3 if thorough else 2, "MaxLen (seq)": 12, "MaxLen (nest)": 6 if thorough else 5, "plans": [p for p, _, _ in (THOROUGH if thorough else QUICK)]}
     ck.cov["rule"] = ("a case is a sequence of units (atoms of JsTokens.tla, one token each) that TLC derived with a separator choice at every "
                       "boundary, allowed by NeedsSep/MergesStrict and the bracket context; spelled by seed (keyword and punctuator atoms have one "
